@@ -27,14 +27,15 @@ def _field_writes(F, field=None):
 
 def rule_IT(FA):
     out = []
-    props = ['C12']
+    props = ['C12', 'C04']
     # group iterator impl methods by self type
     by_base = collections.defaultdict(dict)
     for f in FA.lib_fns(include_closures=False):
         tr = f['impl_trait']
         if tr in ('std::iter::Iterator', 'std::iter::DoubleEndedIterator', 'std::iter::ExactSizeIterator') and f['name'] in ('next', 'next_back', 'len'):
             by_base[f['_base']][f['name']] = f
-    base_props = lambda b: ['C12'] + (['C13'] if b.startswith('qvector') else ['C08'] if b.startswith('bitvector') else [])
+    # a cursor that leaves its range ends in an unchecked read (or an arithmetic trap): iterator discipline also serves C04
+    base_props = lambda b: ['C12', 'C04'] + (['C13'] if b.startswith('qvector') else ['C08'] if b.startswith('bitvector') else [])
     for base, ms in sorted(by_base.items()):
         props = base_props(base)
         nxt = ms.get('next')
@@ -191,6 +192,66 @@ def rule_IT(FA):
                                     name, bad[1], bad[2]), props))
             elif n_acc:
                 out.append(Inst('R-IT', key, 'ok', m['span'], '%d storage access(es), none depends on the cursor after its step without a new bound test' % n_acc, props, nontrivial=False))
+    # constructors of the other iterator types: the bound handed to the iterator is the container's length, not another
+    # counter of the container (`n_bits: self.n_ones`)
+    from . import r_guard as _rg
+    for f in FA.lib_fns(include_closures=False):
+        base = f.get('_base')
+        if base not in _rg.PROPS_OF_BASE or f['unsafe']:
+            continue
+        LEN = _rg.len_term(FA, base)
+        if not (isinstance(LEN, tuple) and LEN[:2] == ('field', SELF)):
+            continue
+        F = FA.fn(f)
+        for b in F.blocks:
+            for s_ in b['s']:
+                rv = s_.get('rv')
+                if not (rv and rv['k'] == 'agg' and rv['kind'].get('adt') in by_base and rv['kind'].get('adt') != 'WTIterator'):
+                    continue
+                it = rv['kind']['adt']
+                names = [x['name'] for x in FA.adts[it]['fields']]
+                for nm, o in zip(names, rv['ops']):
+                    if nm not in ('n_bits', 'end', 'len', 'n', LEN[2]):
+                        continue
+                    tm = strip_casts(norm(F.operand_term(o)))
+                    key = 'R-IT|%s|ctor %s.%s' % (fn_key(f), it.split('::')[-1], nm)
+                    if tm == LEN:
+                        out.append(Inst('R-IT', key, 'ok', s_['line'], '%s { %s: %s }' % (it.split('::')[-1], nm, show(tm)), base_props(it)))
+                    elif tm[:2] == ('field', SELF) and tm[2] != LEN[2]:
+                        out.append(Inst('R-IT', key, 'violation', s_['line'],
+                                        '`%s` builds %s with `%s: %s`, but the length of the container is `%s`: the iterator stops (or runs on) at another count' % (
+                                            f['name'], it.split('::')[-1], nm, show(tm), show(LEN)), base_props(it)))
+    # a double-ended iterator's front cursor stops at the BACK cursor: `next` reads the field `next_back` moves
+    for base, ms in sorted(by_base.items()):
+        nb, nx = ms.get('next_back'), ms.get('next')
+        if nb is None or nx is None:
+            continue
+        back = {w[1] for w in _field_writes(FA.fn(nb))}
+        front = {w[1] for w in _field_writes(FA.fn(nx))}
+        backonly = back - front
+        if not backonly:
+            continue
+        NX = FA.fn(nx)
+        reads = set()
+        for b in NX.blocks:
+            for s_ in b['s']:
+                for o in rv_operands(s_['rv']):
+                    if 'p' in o:
+                        for st in subterms(norm(NX.place_term(o['p']))):
+                            if isinstance(st, tuple) and st[:2] == ('field', SELF):
+                                reads.add(st[2])
+            t = b['t']
+            for o in (t.get('args', []) if t['k'] == 'call' else []) + ([t['d']] if t['k'] == 'switch' else []):
+                if 'p' in o:
+                    for st in subterms(norm(NX.place_term(o['p']))):
+                        if isinstance(st, tuple) and st[:2] == ('field', SELF):
+                            reads.add(st[2])
+        key = 'R-IT|%s|next reads the back cursor' % base
+        if not (backonly & reads):
+            out.append(Inst('R-IT', key, 'violation', nx['span'],
+                            'next_back() moves `%s` but next() never reads it: after elements were taken from the back, the front cursor runs past them and yields them again' % ', '.join(sorted(backonly)), base_props(base)))
+        else:
+            out.append(Inst('R-IT', key, 'ok', nx['span'], 'next() reads `%s`' % ', '.join(sorted(backonly & reads)), base_props(base)))
     # constructors of WTIterator set (0, len)
     for f in FA.lib_fns(include_closures=False):
         if f['name'] in ('iter', 'into_iter') and f.get('_base') in ('quadwt::QWaveletTree', 'quadwt::huffqwt::HuffQWaveletTree', 'binwt::WaveletTree'):
@@ -304,6 +365,18 @@ def rule_NON(FA):
                             '%s overwrites existing bits but only ever %s the cached count of ones (`%s`): %s leaves the count wrong' % (
                                 f['name'], 'increases' if incs else 'decreases', show(ws[0][2])[:60],
                                 'clearing a bit that was set' if incs else 'setting a bit that was clear'), props, sample={'updates': [show(w[2])[:100] for w in ws]}))
+        # ... and in the right direction: the count grows on a path where the written bit is 1 and shrinks where it is 0
+        bools = [('param', f['names'].get(str(k), '_%d' % k)) for k in range(2, f['argc'] + 1) if f['locals'][k] == 'bool']
+        if bools:
+            wrong = None
+            for w in incs + decs:
+                want_true = w in incs
+                for a in path_atoms(F, w[0]):
+                    if a[0] in ('true', 'false') and a[1] in bools and (a[0] == 'true') != want_true:
+                        wrong = (w[3], 'increased' if want_true else 'decreased', show(a[1]), 'false' if want_true else 'true')
+            if wrong:
+                out.append(Inst('R-NON', key + '|direction', 'violation', wrong[0],
+                                'the cached count of ones is %s on a path where the written bit `%s` is %s: the counter moves the wrong way' % (wrong[1], wrong[2], wrong[3]), props))
         if dep and skipped:
             out.append(Inst('R-NON', key, 'violation', skipped[0],
                             '%s overwrites bits on every path but compensates the cached count of ones only when `%s` answers Some: when that accessor rejects a range this function accepts, the overwritten ones stay counted' % (
@@ -583,7 +656,19 @@ def rule_MSK(FA):
                         a, c = c, a
                     if strip_casts(a) == ('field', SELF, ctr if push is not None and ln is not None else 'position') and c[:1] == ('const',) and isinstance(c[1], int) and c[1] >= 63:
                         raw = s_.get('line', '')
-        if raw:
+        checked_conv = None
+        for g in FA.with_closures(ext[0]):
+            G = FA.fn(g)
+            for bi, t in G.calls():
+                if t['f']['fn']['name'] == 'push' and len(t['args']) == 2:
+                    a = norm(G.operand_term(t['args'][1]))
+                    for st in subterms(a):
+                        if isinstance(st, tuple) and st[:1] == ('call',) and st[1].split('::')[-1] in ('to_u8', 'to_i8', 'try_into', 'try_from', 'to_u16', 'to_u32', 'to_usize', 'to_u64'):
+                            checked_conv = (t.get('line', ''), st[1].split('::')[-1])
+        if checked_conv:
+            out.append(Inst('R-MSK', 'R-MSK|QVectorBuilder::extend', 'violation', checked_conv[0],
+                            'extend converts each element with the CHECKED conversion `%s` before pushing: values outside the target range do not keep their two low bits (they become the fallback / panic), where push stores `v mod 4` of every value' % checked_conv[1], props))
+        elif raw:
             out.append(Inst('R-MSK', 'R-MSK|QVectorBuilder::extend', 'violation', raw,
                             'extend derives a slot from the bit counter without halving it (`position & mask`): push and len() use position >> 1', props))
         elif good:
@@ -1118,6 +1203,33 @@ def rule_LVL(FA):
                             ('lengths passed to craft_wm_codes are `%s`' % show(a0)[:120] if not good else 'the lengths map is modified before craft_wm_codes (%s)' % mutated)
                         out.append(Inst('R-LVL', key, 'violation', t['line'],
                                         'code lengths are not the unmodified output of Coding::from_frequencies*(BitsPerFragment(%d)).code_lengths(): %s' % (frag, why), props))
+        # the minimum-redundancy coder is applied ONCE, to the frequencies: a second application (to the code lengths, which
+        # have the same map type) turns short codes into heavy weights
+        coder_calls = []
+        seen_paths = set()
+        stack = [f]
+        while stack:
+            g0 = stack.pop()
+            if g0['path'] in seen_paths:
+                continue
+            seen_paths.add(g0['path'])
+            for g in FA.with_closures(g0):
+                for b_ in g['blocks']:
+                    t_ = b_['t']
+                    if t_['k'] == 'call' and 'fn' in t_['f']:
+                        fn_ = t_['f']['fn']
+                        if 'Coding' in (fn_.get('path', '') + fn_.get('self_ty', '')) and fn_['name'].startswith('from_'):
+                            coder_calls.append((g0['name'], t_.get('line', '')))
+                        for c_ in FA.resolve(fn_):
+                            if not c_['exported'] and c_['kind'] != 'Closure':
+                                stack.append(c_)
+        per_spec = len(list(FA.specs(f))) or 1
+        distinct = sorted(set(coder_calls))
+        if len(distinct) > 1 and len({n for n, _ in distinct}) > 1:
+            out.append(Inst('R-LVL', 'R-LVL|%s::new|coder applied once' % base, 'violation', distinct[-1][1],
+                            'the minimum-redundancy coder is built in `%s` and again in `%s`: the second one takes the first one\'s code lengths for weights, frequent symbols end up with the long codes' % (distinct[0][0], distinct[-1][0]), props))
+        elif distinct:
+            out.append(Inst('R-LVL', 'R-LVL|%s::new|coder applied once' % base, 'ok', distinct[0][1], 'one coder construction on the construction path', props))
         if n_push == 0:
             out.append(Inst('R-LVL', 'R-LVL|%s::new|level write guarded' % base, 'violation', f['span'], 'no level write found (anchor lost)', props))
         if n_craft == 0:
@@ -1577,9 +1689,17 @@ def rule_SPC(FA):
                 ok = 'capacity' in names
                 out.append(Inst('R-SPC', 'R-SPC|Vec<T>', 'ok' if ok else 'violation', f['span'],
                                 'Vec<T> accounts capacity()' if ok else 'Vec<T> does not account its capacity() (retained memory is capacity, not len)', props))
+                sized = any((t['f']['fn']['name'] in ('size_of', 'size_of_val') and not any('Vec' in str(g) for g in t['f']['fn'].get('gargs', [])[:1]))
+                            or 'Layout' in t['f']['fn'].get('path', '')
+                            for b in f['blocks'] for t in [b['t']] if t['k'] == 'call' and 'fn' in t['f'])
+                if ok and not sized:
+                    out.append(Inst('R-SPC', 'R-SPC|Vec<T>|empty', 'violation', f['span'],
+                                    'Vec<T> multiplies capacity() by a per-element size that is never size_of::<T>() (it is taken from an element): an empty vector with reserved capacity has no element to ask and reports only its header', props))
             elif f['impl_self'].startswith('std::boxed::Box'):
                 names = [t['f']['fn']['name'] for b in f['blocks'] for t in [b['t']] if t['k'] == 'call' and 'fn' in t['f']]
-                ok = 'sum' in names or 'fold' in names
+                # the elements are visited and asked (an adaptor chain, or a loop that calls space_usage_byte on what it yields)
+                deep = [t['f']['fn']['name'] for g in FA.with_closures(f) for b in g['blocks'] for t in [b['t']] if t['k'] == 'call' and 'fn' in t['f']]
+                ok = 'sum' in names or 'fold' in names or ('space_usage_byte' in deep and any(n in deep for n in ('next', 'for_each', 'iter', 'into_iter')))
                 out.append(Inst('R-SPC', 'R-SPC|Box<[T]>', 'ok' if ok else 'violation', f['span'],
                                 'Box<[T]> sums its elements' if ok else 'Box<[T]> does not sum its elements', props))
             continue
@@ -1744,6 +1864,35 @@ def rule_NEG(FA):
                         out.append(Inst('R-NEG', key, 'ok', s['line'], 'complement of the stored word', props, sample={'operand': [show(t)[:100] for t in flat]}))
     if n == 0:
         out.append(Inst('R-NEG', 'R-NEG|anchors', 'violation', '', 'no word complement found in BIT = false specialisations (anchor lost)', ['C08', 'C07']))
+    # a decision taken in the BIT = false specialisation from a count of ONES alone (`if bv.count_ones() == 0 { return empty }`)
+    # is a decision about the wrong kind of bit: for zeros the relevant count is len - ones
+    ONES_ACC = ('count_ones', 'n_ones')
+    for f in FA.lib_fns(include_closures=False):
+        if 'BIT' not in FA.const_params(f):
+            continue
+        props = ['C08', 'C07'] if 'bitvector' in f['path'] else ['C07']
+        for spec in FA.specs(f):
+            if spec.get('BIT', False):
+                continue
+            F = FA.fn(f, spec)
+            F.dom()
+            bad = None
+            for bi, b in enumerate(F.blocks):
+                if bi not in F.reach or b['t']['k'] != 'switch' or bi in F.debug_switches():
+                    continue
+                d = norm(F.operand_term(b['t']['d']))
+                for a in term_atoms(d):
+                    if a[0] not in ('==', '!=', '<', '<=') or not isinstance(a[2], tuple):
+                        continue
+                    for x, y in ((a[1], a[2]), (a[2], a[1])):
+                        xs = strip_casts(x)
+                        ones_cnt = isinstance(xs, tuple) and ((xs[:1] == ('call',) and xs[1].split('::')[-1] in ONES_ACC) or (xs[:1] == ('field',) and xs[2] in ONES_ACC))
+                        if ones_cnt and strip_casts(y)[:1] == ('const',):
+                            bad = (b['t'].get('line', ''), show(xs)[:50])
+            key = 'R-NEG|%s%s|count kind' % (fn_key(f), spec_key(spec))
+            if bad:
+                out.append(Inst('R-NEG', key, 'violation', bad[0],
+                                'the zeros flavour of `%s` branches on `%s` compared with a constant: the number of ONES decides nothing about the zeros (a vector without ones consists of zeros only)' % (f['name'], bad[1]), props))
     # the two specialisations of a BIT-generic function differ only by that complement: the all-ones masks that cut the
     # first / last word are shifted the same way for ones and for zeros
     for f in FA.lib_fns(include_closures=False):
